@@ -275,3 +275,25 @@ def specs(tier='quick'):
         out += [spec_num_iterations(ws), spec_normalized(ws), spec_iteration_number(ws), spec_iteration_index(ws)]
     out.append(spec_ceil_division())
     return out
+
+
+def bounded_checks(tier, seed):
+    """native cross-check over all small literal ranges (bounded/C10_native.py): backs the contracts up when the code
+    leaves the verifier's subset (e.g. a new recursive helper without contract); never counted as proved"""
+    import json
+    import os
+    import subprocess
+    root = os.path.dirname(os.path.dirname(os.path.abspath(__file__)))
+    repo = os.environ.get('LOKI_REPO', '/repo')
+    p = subprocess.run([os.environ.get('LOKI_PYTHON', '/venv/bin/python'), os.path.join(root, 'bounded', 'C10_native.py')],
+                       capture_output=True, text=True, timeout=1800, env=dict(os.environ, PYTHONPATH=repo), cwd=repo)
+    line = next((l for l in reversed(p.stdout.splitlines()) if l.startswith('{')), None)
+    rule = ('all literal loop ranges with start, stop in [-6, 6], step in [-4, 4] without 0 (and no step), bounds as '
+            'IntLiteral and as negated literals: get_pyrange, num_iterations, normalized, iteration_number, '
+            'iteration_index against the Fortran DO sequence')
+    if line is None:
+        return [{'name': 'bounded/loop-range-helpers', 'cases': 0, 'violation': False, 'error': p.stderr[-600:], 'rule': rule}]
+    d = json.loads(line)
+    return [{'name': 'bounded/loop-range-helpers', 'cases': d['cases'], 'distinct': d['cases'], 'rule': rule,
+             'bound': '|start|,|stop| <= 6, |step| <= 4', 'violation': bool(d['violation']), 'cex': d.get('cex'),
+             'n_violations': d.get('n_violations', 0)}]
